@@ -250,17 +250,40 @@ func Run(args []string) *rep.Report {
 		case "crafted":
 			// frame tc.Cut (an HTTP gateway frame) replaced by: the gateway's code, a payload length of 2, two payload bytes --
 			// and by the same with the payload missing
-			for _, tail := range [][]byte{{2, 'x', 'y'}, {1, 'z'}, {2}} {
+			var variants [][]byte // what frame tc.Cut is replaced by
+			if name := tc.Ps[tc.Cut-1]; name == "H" {
+				b := bs[tc.Cut-1]
+				for _, tail := range [][]byte{{2, 'x', 'y'}, {1, 'z'}, {2}} {
+					variants = append(variants, append(append([]byte(nil), b[:len(b)-1]...), tail...))
+				}
+			} else {
+				// an unknown frame whose length prefix carries one or two padding bytes; the payload ends in bytes that read as
+				// whole transports, so that a decoder which loses count finds something to decode
+				code := varint.ToUvarint(uint64(unknownCodes[name]))
+				// tails of as many bytes as there are padding bytes (where a decoder that counts the minimal form resumes): bitswap,
+				// the gateway frame, and an empty frame of the same unknown code (which keeps the codes in order)
+				tails := map[int][]byte{1: {0x12}, 2: {0x80, 0x12}, 3: {0xa0, 0x12, 0x00}, len(code) + 1: append(append([]byte(nil), code...), 0x00)}
+				for pads, tail := range tails {
+					payload := append([]byte{0xA0, 0xA1}, tail...)
+					f := append([]byte(nil), code...)
+					f = append(f, byte(len(payload))|0x80)
+					for k := 1; k < pads; k++ {
+						f = append(f, 0x80)
+					}
+					f = append(f, 0x00)
+					variants = append(variants, append(f, payload...))
+				}
+			}
+			for _, v := range variants {
 				var raw []byte
 				for i, b := range bs {
 					if i == tc.Cut-1 {
-						raw = append(raw, b[:len(b)-1]...)
-						raw = append(raw, tail...)
+						raw = append(raw, v...)
 					} else {
 						raw = append(raw, b...)
 					}
 				}
-				check(tc, raw, false, nil, fmt.Sprintf("gateway frame %d with length byte and payload % x", tc.Cut, tail))
+				check(tc, raw, false, nil, fmt.Sprintf("frame %d replaced by the crafted frame % x", tc.Cut, v))
 			}
 		case "truncated":
 			// locate the model's cut: frame boundary, or inside the k-th frame (then every real offset inside it)
